@@ -47,10 +47,24 @@ theorem elVarint_enc (v : Nat) (hv : v < two64) (rest : Bytes) :
   have hne : ¬ (encVarint v).length = 0 := by omega
   simp [hne]
 
+/-- the decoder right after `DecodeTag` read a key of `n` bytes (cursor advanced, key span recorded) -/
+def Dec.afterTag (d : Dec) (n : Nat) : Dec := { d with off := d.off + n, ks := d.off, ke := d.off + n }
+
+@[simp] theorem Dec.afterTag_p (d : Dec) (n : Nat) : (d.afterTag n).p = d.p := rfl
+@[simp] theorem Dec.afterTag_off (d : Dec) (n : Nat) : (d.afterTag n).off = d.off + n := rfl
+@[simp] theorem Dec.afterTag_fast (d : Dec) (n : Nat) : (d.afterTag n).fast = d.fast := rfl
+@[simp] theorem Dec.afterTag_ks (d : Dec) (n : Nat) : (d.afterTag n).ks = d.off := rfl
+@[simp] theorem Dec.afterTag_ke (d : Dec) (n : Nat) : (d.afterTag n).ke = d.off + n := rfl
+@[simp] theorem Dec.afterTag_len (d : Dec) (n : Nat) : (d.afterTag n).len = d.len := rfl
+
+theorem Dec.At.afterTag {d : Dec} {pre x post : Bytes} (h : d.At pre (x ++ post)) :
+    (d.afterTag x.length).At (pre ++ x) post :=
+  ⟨by simp [h.p], by simp [h.off]⟩
+
 /-- `DecodeTag` on a canonical key -/
 theorem Dec.tag_at {d : Dec} {pre post : Bytes} {tag wt : Nat} (h : d.At pre (encTag tag wt ++ post))
     (h1 : 1 ≤ tag) (ht : tag ≤ maxTagValue) (hw : wt < 8) :
-    d.step .tag = ({ d with off := d.off + (encTag tag wt).length }, .ok (.tag tag wt), 0) := by
+    d.step .tag = (d.afterTag (encTag tag wt).length, .ok (.tag tag wt), 0) := by
   have hne : encTag tag wt ++ post ≠ [] := by simp [encTag, encVarint_ne_nil]
   have hk := keyOf_lt ht hw
   have hk64 : keyOf tag wt < two64 := by unfold two32 at hk; unfold two64; omega
@@ -62,7 +76,7 @@ theorem Dec.tag_at {d : Dec} {pre post : Bytes} {tag wt : Nat} (h : d.At pre (en
   rw [decodeVarint_encVarint _ hk64]
   have hn : ¬ (encVarint (keyOf tag wt)).length < 1 := by omega
   have hmax : ¬ (tag > maxTagValue) := by omega
-  simp [hn, hv1, hs.1, hs.2, hmax]
+  simp [hn, hv1, hs.1, hs.2, hmax, Dec.afterTag]
 
 theorem Dec.lenPrefix_at {d : Dec} {pre body post : Bytes} (h : d.At pre (encVarint body.length ++ body ++ post))
     (hl : body.length ≤ maxFieldLen) :
